@@ -26,10 +26,97 @@ type c12SR struct {
 	Recipient bool `json:"r,omitempty"`
 }
 
+// Entries of update.users / update.changed are numbers so that cases stay compact
+// and replayable:
+//
+//	0 null, 1 {}, 2 {"sessionId":1}, 3 {"sessionId":"s5"}        (the four original classes)
+//	100 + 25*up + 5*lo + act                                     (member-level variants)
+//
+// up = member "sessionId", lo = member "sessionid": 0 missing, 1 a number, 2 null,
+// 3 the session id the remote gave the federated session in its hello, 4 another string;
+// act = actor members: 0 none, 1 actorType "users" + actorId, 2 actorType
+// "federated_users" + actorId of a user of the local server, 3 actorId not a string,
+// 4 actorType not a string.  See c12UEntry.
 type c12Upd struct {
-	Changed []int `json:"changed,omitempty"` // 0 null, 1 {}, 2 {"sessionId":1}, 3 {"sessionId":"s"}
-	Users   []int `json:"users,omitempty"`
+	Changed []c12Ent `json:"changed,omitempty"`
+	Users   []c12Ent `json:"users,omitempty"`
 }
+
+// in replay files the original classes stay numbers, the variants are spelled out:
+// "sessionId=<class> sessionid=<class> actor=<class>"
+type c12Ent int
+
+var c12SidNames = []string{"-", "number", "null", "own", "string"}
+var c12ActNames = []string{"-", "user", "fedlocal", "badid", "badtype"}
+
+func (e c12Ent) MarshalJSON() ([]byte, error) {
+	if e < 100 {
+		return json.Marshal(int(e))
+	}
+	_, up, lo, act := c12UEntry(e)
+	return json.Marshal(fmt.Sprintf("sessionId=%s sessionid=%s actor=%s", c12SidNames[up], c12SidNames[lo], c12ActNames[act]))
+}
+
+func (e *c12Ent) UnmarshalJSON(b []byte) error {
+	var n int
+	if json.Unmarshal(b, &n) == nil {
+		*e = c12Ent(n)
+		return nil
+	}
+	var s string
+	if err := json.Unmarshal(b, &s); err != nil {
+		return err
+	}
+	idx := func(names []string, v string) int {
+		for i, n := range names {
+			if n == v {
+				return i
+			}
+		}
+		return 0
+	}
+	var up, lo, act int
+	for _, f := range strings.Fields(s) {
+		kv := strings.SplitN(f, "=", 2)
+		if len(kv) != 2 {
+			continue
+		}
+		switch kv[0] {
+		case "sessionId":
+			up = idx(c12SidNames, kv[1])
+		case "sessionid":
+			lo = idx(c12SidNames, kv[1])
+		case "actor":
+			act = idx(c12ActNames, kv[1])
+		}
+	}
+	*e = c12UE(up, lo, act)
+	return nil
+}
+
+// c12UE builds the number of an entry from its parts
+func c12UE(up, lo, act int) c12Ent { return c12Ent(100 + 25*(up%5) + 5*(lo%5) + act%5) }
+
+// decoded entry: null, or (up, lo, act)
+func c12UEntry(e c12Ent) (null bool, up, lo, act int) {
+	k := int(e)
+	switch {
+	case k >= 100 && k < 225:
+		k -= 100
+		return false, k / 25, (k / 5) % 5, k % 5
+	case k == 0:
+		return true, 0, 0, 0
+	case k == 1:
+		return false, 0, 0, 0
+	case k == 2:
+		return false, 1, 0, 0
+	}
+	return false, 4, 0, 0
+}
+
+// all classes the model distinguishes for the two id members (as numbers 0..4; 1 and 2
+// are both "not a string")
+var c12SidClasses = []int{0, 1, 2, 3, 4}
 
 type c12Event struct {
 	Target    string  `json:"target"` // participants room roomlist other
@@ -61,6 +148,64 @@ type c12Shape struct {
 	Int   bool      `json:"int,omitempty"`
 	Dial  bool      `json:"dial,omitempty"`
 	Empty bool      `json:"emptytype,omitempty"` // tag other: "type" is "" instead of "foo"
+	// content variant of the raw (json.RawMessage) members the code decodes on its own: data of
+	// message / control (answer / offer, forceMute), details of error (already_joined). The code
+	// guards all of them, the model does not distinguish them. 0 default; see c12RawData / c12ErrDetails
+	V int `json:"v,omitempty"`
+}
+
+const c12Variants = 8
+
+// data member of message / control; ok=false: member missing
+func c12RawData(v int, control bool, ctx *c12Ctx) (interface{}, bool) {
+	own := c12SidStr(0, ctx)
+	switch v % c12Variants {
+	case 1:
+		if control {
+			return map[string]interface{}{"action": "forceMute", "peerId": own}, true
+		}
+		return map[string]interface{}{"type": "offer", "from": own, "to": own, "roomType": "video", "payload": map[string]interface{}{"sdp": "x"}}, true
+	case 2:
+		if control {
+			return map[string]interface{}{"action": "forceMute", "peerId": 5}, true
+		}
+		return map[string]interface{}{"type": "answer", "from": 5}, true
+	case 3:
+		if control {
+			return map[string]interface{}{"action": "forceMute"}, true
+		}
+		return map[string]interface{}{"type": "offer", "payload": nil}, true
+	case 4:
+		return []int{1, 2}, true
+	case 5:
+		return "str", true
+	case 6:
+		return nil, false
+	case 7:
+		return nil, true
+	}
+	return map[string]interface{}{"type": "x"}, true
+}
+
+// details member of error; ok=false: member missing
+func c12ErrDetails(v int, ctx *c12Ctx) (interface{}, bool) {
+	switch v % c12Variants {
+	case 1:
+		return map[string]interface{}{}, true
+	case 2:
+		return map[string]interface{}{"room": nil}, true
+	case 3:
+		return map[string]interface{}{"room": map[string]interface{}{}}, true
+	case 4:
+		return "str", true
+	case 5:
+		return []int{1}, true
+	case 6:
+		return nil, false
+	case 7:
+		return nil, true
+	}
+	return map[string]interface{}{"room": map[string]interface{}{"roomid": ctx.remoteRoom}}, true
 }
 
 var c12Tags = []string{"welcome", "hello", "error", "bye", "room", "message", "control", "event", "transient", "internal", "dialout", "other"}
@@ -85,6 +230,7 @@ type c12Ctx struct {
 	helloId    string // id of the last hello request the local side sent ("" = none yet)
 	remoteRoom string
 	sidOn      bool // the hello answers of this case carry a session id
+	localCloud string // cloud id suffix of users of the local server ("" = unknown)
 }
 
 const (
@@ -114,25 +260,58 @@ func c12Entries(l []int, ctx *c12Ctx) []interface{} {
 	return out
 }
 
-func c12Users(l []int) []interface{} {
+func c12SidMember(class int, other string, ctx *c12Ctx) (interface{}, bool) {
+	switch class {
+	case 1:
+		return 1, true
+	case 2:
+		return nil, true
+	case 3:
+		return c12SidStr(0, ctx), true
+	case 4:
+		return other, true
+	}
+	return nil, false
+}
+
+func c12Users(l []c12Ent, ctx *c12Ctx) []interface{} {
 	out := []interface{}{}
 	for _, k := range l {
-		switch k {
-		case 0:
+		null, up, lo, act := c12UEntry(k)
+		if null {
 			out = append(out, nil)
-		case 1:
-			out = append(out, map[string]interface{}{})
-		case 2:
-			out = append(out, map[string]interface{}{"sessionId": 1, "inCall": 1})
-		default:
-			out = append(out, map[string]interface{}{"sessionId": "s5", "inCall": 1})
+			continue
 		}
+		e := map[string]interface{}{}
+		if k != 1 {
+			e["inCall"] = 1
+		}
+		if v, ok := c12SidMember(up, "s5", ctx); ok {
+			e["sessionId"] = v
+		}
+		if v, ok := c12SidMember(lo, "s6", ctx); ok {
+			e["sessionid"] = v
+		}
+		switch act {
+		case 1:
+			e["actorType"], e["actorId"] = "users", "alice"
+		case 2:
+			e["actorType"], e["actorId"] = "federated_users", "bob@"+ctx.localCloud
+		case 3:
+			e["actorType"], e["actorId"] = "users", 7
+		case 4:
+			e["actorType"], e["actorId"] = []interface{}{"users"}, "alice"
+		}
+		out = append(out, e)
 	}
 	return out
 }
 
-func c12SRDoc(s *c12SR) map[string]interface{} {
-	d := map[string]interface{}{"data": map[string]interface{}{"type": "x"}}
+func c12SRDoc(s *c12SR, v int, control bool, ctx *c12Ctx) map[string]interface{} {
+	d := map[string]interface{}{}
+	if data, ok := c12RawData(v, control, ctx); ok {
+		d["data"] = data
+	}
 	if s.Sender {
 		d["sender"] = map[string]interface{}{"type": "session", "sessionid": c12RemoteSid}
 	}
@@ -165,8 +344,11 @@ func (s *c12Shape) doc(ctx *c12Ctx) []byte {
 		d["id"] = "x-other"
 	}
 	if s.Err != "" {
-		d["error"] = map[string]interface{}{"code": c12ErrCode[s.Err], "message": "m",
-			"details": map[string]interface{}{"room": map[string]interface{}{"roomid": ctx.remoteRoom}}}
+		e := map[string]interface{}{"code": c12ErrCode[s.Err], "message": "m"}
+		if det, ok := c12ErrDetails(s.V, ctx); ok {
+			e["details"] = det
+		}
+		d["error"] = e
 	}
 	switch s.Wel {
 	case "fed":
@@ -199,10 +381,10 @@ func (s *c12Shape) doc(ctx *c12Ctx) []byte {
 		d["room"] = map[string]interface{}{"roomid": "some-other-room"}
 	}
 	if s.Msg != nil {
-		d["message"] = c12SRDoc(s.Msg)
+		d["message"] = c12SRDoc(s.Msg, s.V, false, ctx)
 	}
 	if s.Ctl != nil {
-		d["control"] = c12SRDoc(s.Ctl)
+		d["control"] = c12SRDoc(s.Ctl, s.V, true, ctx)
 	}
 	if e := s.Ev; e != nil {
 		ev := map[string]interface{}{}
@@ -244,10 +426,10 @@ func (s *c12Shape) doc(ctx *c12Ctx) []byte {
 		if u := e.Update; u != nil {
 			ud := map[string]interface{}{"roomid": ctx.remoteRoom}
 			if len(u.Changed) > 0 {
-				ud["changed"] = c12Users(u.Changed)
+				ud["changed"] = c12Users(u.Changed, ctx)
 			}
 			if len(u.Users) > 0 {
-				ud["users"] = c12Users(u.Users)
+				ud["users"] = c12Users(u.Users, ctx)
 			}
 			ev["update"] = ud
 		}
@@ -301,14 +483,23 @@ func c12NList(l []int) string {
 	return coqList(it)
 }
 
-func c12UList(l []int) string {
-	names := []string{"UNil", "UNoSid", "UBadSid", "USid"}
+func c12UList(l []c12Ent) string {
+	sidv := []string{"VNone", "VBad", "VBad", "VOwn", "VStr"}
+	actor := []string{"ANone", "AUser", "AFedLocal", "ABadId", "ABadType"}
 	var it []string
-	for _, n := range l {
-		if n < 0 || n > 3 {
-			n = 3
+	for _, k := range l {
+		switch null, up, lo, act := c12UEntry(k); {
+		case null:
+			it = append(it, "UNil")
+		case k == 1:
+			it = append(it, "UNoSid")
+		case k == 2:
+			it = append(it, "UBadSid")
+		case k < 100:
+			it = append(it, "USid")
+		default:
+			it = append(it, fmt.Sprintf("UEnt %s %s %s", sidv[up], sidv[lo], actor[act]))
 		}
-		it = append(it, names[n])
 	}
 	return coqList(it)
 }
@@ -392,7 +583,7 @@ func (e *c12Event) with(member string) {
 	case "disinvite":
 		e.Disinvite = true
 	case "update":
-		e.Update = &c12Upd{Users: []int{3}}
+		e.Update = &c12Upd{Users: []c12Ent{3}}
 	case "flags":
 		e.Flags = true
 	case "message":
